@@ -57,3 +57,21 @@ package client
 //@                unprocessed[table][len(unprocessed[table]) - 1] == req
 //@   ensures[C15,C19] err != nil && result == nil ==> forall j int :: 0 <= j && j < old(table in unprocessed ? len(unprocessed[table]) : 0) ==> unprocessed[table][j] == old(unprocessed[table][j])
 //@   ensures[C15,C19] forall t2 string :: {unprocessed[t2]} t2 != table ==> ((t2 in unprocessed) == old(t2 in unprocessed)) && unprocessed[t2] == old(unprocessed[t2])
+
+// ---- C19: a batch is its item-by-item decomposition -------------------------------------------------
+// (see the SDK v2 client's contract file for the reading of these clauses)
+//@ func executeBatchWriteRequest
+//@   partial
+//@   callsite[C19] (*Client).PutItem: req.PutRequest != nil && arg.fd == fd && arg.input != nil && arg.input.TableName == table && arg.input.Item == req.PutRequest.Item && arg.input.ConditionExpression == nil && arg.input.ExpressionAttributeNames == nil && arg.input.ExpressionAttributeValues == nil
+//@   callsite[C19] (*Client).DeleteItem: req.PutRequest == nil && req.DeleteRequest != nil && arg.fd == fd && arg.input != nil && arg.input.TableName == table && arg.input.Key == req.DeleteRequest.Key && arg.input.ConditionExpression == nil && arg.input.ExpressionAttributeNames == nil && arg.input.ExpressionAttributeValues == nil
+//@   ensures[C19] req.PutRequest == nil && req.DeleteRequest == nil ==> result == nil && unchangedAll()
+
+//@ func (*Client).BatchWriteItem
+//@   partial
+//@   callsite[C19] executeBatchWriteRequest: arg.fd == fd && arg.table != nil && *arg.table == table && arg.req == req && table in input.RequestItems
+//@   callsite[C19] handleBatchWriteRequestError: arg.table == table && arg.req == req && arg.unprocessed == unprocessed && arg.err == err
+//@   ensures[C19] result1 == nil ==> result0 != nil && result0.UnprocessedItems == unprocessed
+//@   loop 1:
+//@     invariant fresh(unprocessed) && unprocessed != nil && dom(input.RequestItems) == old(dom(input.RequestItems))
+//@   loop 2:
+//@     invariant fresh(unprocessed) && unprocessed != nil && dom(input.RequestItems) == old(dom(input.RequestItems)) && table in input.RequestItems && rangeindex >= -1
